@@ -130,3 +130,332 @@ Proof.
     + exfalso. apply H1. rewrite E. apply in_map; auto.
     + apply IH; auto.
 Qed.
+
+(* ---- looking an address up in a list of blocks separated by their prefixes ------------------------------- *)
+Lemma info_at_app : forall l1 l2 a, info_at (l1 ++ l2) a = match info_at l1 a with Some i => Some i | None => info_at l2 a end.
+Proof. unfold info_at. induction l1; intros; simpl; auto. destruct (addr_eqb (i_addr a) a0); auto. Qed.
+Lemma info_at_none : forall l a, (forall i, In i l -> i_addr i <> a) -> info_at l a = None.
+Proof.
+  unfold info_at. induction l; intros a' H; simpl; auto.
+  unfold addr_eqb at 1. destruct (list_eq_dec Nat.eq_dec (i_addr a) a') as [E|E].
+  - exfalso. eapply H; eauto. simpl; auto.
+  - apply IHl. intros; apply H; simpl; auto.
+Qed.
+Lemma prefix_conflict : forall a i j x, i <> j -> prefix (a ++ [i]) x -> prefix (a ++ [j]) x -> False.
+Proof. intros. eapply prefix_snoc_neq; eauto. Qed.
+
+(* the infos agree with a local block on every address below a *)
+Definition agree (infos blk : list dpinfo) (a : addr) : Prop :=
+  forall a', prefix a a' -> info_at infos a' = info_at blk a'.
+
+Lemma agree_mapi : forall A (f : nat -> A -> list dpinfo) a l k j e,
+  (forall i e, nth_error l i = Some e -> forall x, In x (f (k + i) e) -> prefix (a ++ [k + i]) (i_addr x)) ->
+  nth_error l j = Some e ->
+  agree (concat (mapi f k l)) (f (k + j) e) (a ++ [k + j]).
+Proof.
+  induction l as [|e0 l IH]; intros k j e Hp Hj a' Ha'. destruct j; discriminate.
+  simpl. rewrite info_at_app. destruct j.
+  - inv Hj. rewrite Nat.add_0_r in *. destruct (info_at (f k e) a') eqn:E; auto.
+    apply info_at_none. intros i Hi Ei. apply in_concat_mapi in Hi as (i' & e' & He' & Hi).
+    replace (S k + i') with (k + S i') in Hi by lia.
+    specialize (Hp (S i') e' He' _ Hi). rewrite Ei in Hp.
+    eapply (prefix_conflict a k (k + S i')); eauto. lia.
+  - rewrite info_at_none.
+    + replace (k + S j) with (S k + j) in * by lia. apply (IH (S k) j e); auto.
+      intros i e' He' x Hx. replace (S k + i) with (k + S i) in * by lia. apply (Hp (S i) e' He' x); auto.
+    + intros i Hi Ei. specialize (Hp 0 e0 eq_refl i). rewrite Nat.add_0_r in Hp. specialize (Hp Hi). rewrite Ei in Hp.
+      eapply (prefix_conflict a k (k + S j)); eauto. lia.
+Qed.
+
+Lemma agree_map_seq : forall (g : nat -> list dpinfo) a len s j,
+  (forall i, s <= i < s + len -> forall x, In x (g i) -> prefix (a ++ [i]) (i_addr x)) ->
+  s <= j < s + len ->
+  agree (concat (map g (seq s len))) (g j) (a ++ [j]).
+Proof.
+  induction len; intros s j Hp Hj a' Ha'. lia.
+  simpl. rewrite info_at_app. destruct (Nat.eq_dec s j) as [->|Hne].
+  - destruct (info_at (g j) a') eqn:E; auto.
+    apply info_at_none. intros i Hi Ei. apply in_concat in Hi as [l [Hl Hi]]. apply in_map_iff in Hl as [i' [<- Hi']].
+    apply in_seq in Hi'. specialize (Hp i' ltac:(lia) _ Hi). rewrite Ei in Hp.
+    eapply (prefix_conflict a j i'); eauto. lia.
+  - rewrite info_at_none.
+    + apply (IHlen (S s) j); auto. intros; apply Hp; auto; lia. lia.
+    + intros i Hi Ei. specialize (Hp s ltac:(lia) _ Hi). rewrite Ei in Hp.
+      eapply (prefix_conflict a s j); eauto.
+Qed.
+
+Lemma agree_trans : forall infos blk blk' a a', agree infos blk a -> prefix a a' -> agree blk blk' a' -> agree infos blk' a'.
+Proof.
+  intros infos blk blk' a a' H1 Hp H2 x Hx. rewrite H1. apply H2; auto.
+  destruct Hp as [t ->]. destruct Hx as [u ->]. exists (t ++ u). rewrite app_assoc. auto.
+Qed.
+
+(* ---- the active decisions of a valid decision, in the order to_dict visits them ---------------------------- *)
+Inductive aval := AChoice (c : nat) | AFlt (f : flt) | AStr (s : str).
+Definition mapi2 {A B C} (f : nat -> A -> B -> C) : nat -> list A -> list B -> list C :=
+  fix go i l1 l2 := match l1, l2 with a :: r1, b :: r2 => f i a b :: go (S i) r1 r2 | _, _ => [] end.
+Fixpoint acts (s : dspec) (a : addr) (sd : sdna) {struct s} : list (addr * aval) :=
+  match s, sd with Space es, SSpace ds => concat (mapi2 (fun i e x => acts_p e (a ++ [i]) x) 0 es ds) end
+with acts_p (p : dpoint) (a : addr) (x : pdna) {struct p} : list (addr * aval) :=
+  match p, x with
+  | Choices k cands _ _ _ _, PChoices cs =>
+      let single := fun (a' : addr) (cs0 : nat * sdna) =>
+        (a', AChoice (fst cs0)) :: with_nth (fun sc => acts sc (a' ++ [fst cs0]) (snd cs0)) [] cands (fst cs0) in
+      if k =? 1 then match cs with [cs0] => single a cs0 | _ => [] end
+      else concat (mapi (fun i cs0 => single (a ++ [i]) cs0) 0 cs)
+  | FloatP _ _ _, PFloat f => [(a, AFlt f)]
+  | CustomP _, PCustom s => [(a, AStr s)]
+  | _, _ => []
+  end.
+
+Definition put1 (infos : list dpinfo) (kt : key_type) (vt : value_type) (d : dict) (e : addr * aval) : dict :=
+  match info_at infos (fst e) with
+  | Some i =>
+      let k := key_of kt (i_id i) (i_name i) (fst e) in
+      match snd e, i_kind i with
+      | AChoice c, PKChoice n lits => dput d k (format_candidate vt n lits c (D VNone []))
+      | AFlt f, _ => dput d k (LfV (VFlt f))
+      | AStr s, _ => dput d k (LfV (VStr s))
+      | _, _ => d
+      end
+  | None => d
+  end.
+Definition puts infos kt vt (es : list (addr * aval)) (d : dict) : dict := fold_left (put1 infos kt vt) es d.
+Lemma puts_app : forall infos kt vt l1 l2 d, puts infos kt vt (l1 ++ l2) d = puts infos kt vt l2 (puts infos kt vt l1 d).
+Proof. intros. unfold puts. apply fold_left_app. Qed.
+
+(* ---- to_dict of a bound valid decision ----------------------------------------------------------------------- *)
+Lemma dump_unfold : forall infos kt vt m v sp kids d,
+  dump infos kt vt m (B v sp kids) d =
+  fold_left (fun acc c => dump infos kt vt m c acc) kids
+    (match sp with
+     | None => d
+     | Some a =>
+       match info_at infos a with
+       | None => d
+       | Some i =>
+         let k := key_of kt (i_id i) (i_name i) a in
+         match i_kind i with
+         | PKChoice n lits =>
+             match v with
+             | VInt z =>
+                 let x := format_candidate vt n lits (Z.to_nat z) (strip (B v sp kids)) in
+                 match i_sub i with
+                 | Some (_, pa, pid) =>
+                     let d' := if use_parent m then dput d (key_of kt pid (i_name i) pa) x else d in
+                     if needs_subchoice_key kt m (i_name i) then dput d' k x else d'
+                 | None => dput d k x
+                 end
+             | _ => d
+             end
+         | _ => dput d k (match vt with VT_dna => LfDna (strip (B v sp kids)) | _ => LfV v end)
+         end
+       end
+     end).
+Proof. reflexivity. Qed.
+
+Lemma info_at_head : forall i rest, info_at (i :: rest) (i_addr i) = Some i.
+Proof.
+  intros. unfold info_at. simpl. unfold addr_eqb.
+  destruct (list_eq_dec Nat.eq_dec (i_addr i) (i_addr i)); [reflexivity|contradiction].
+Qed.
+Lemma info_at_skip : forall i rest a, i_addr i <> a -> info_at (i :: rest) a = info_at rest a.
+Proof.
+  intros. unfold info_at. simpl. unfold addr_eqb.
+  destruct (list_eq_dec Nat.eq_dec (i_addr i) a); [contradiction|reflexivity].
+Qed.
+
+(* the block of one single choice (a sub-choice of a multi-choice, or a single choice itself) *)
+Definition single_block (cands : list dspec) (name : option str) (lits : list lit) (a' : addr) (id' : did)
+  (sub : option (nat * addr * did)) : list dpinfo :=
+  {| i_addr := a'; i_id := id'; i_name := name; i_kind := PKChoice (length cands) lits; i_sub := sub |}
+  :: concat (mapi (fun j c => dps c (a' ++ [j]) (id' ++ [KCond j (length cands)])) 0 cands).
+Lemma dps_p_choices_unfold : forall k cands dist srt loc name lits a pid,
+  dps_p (Choices k cands dist srt (loc, name) lits) a pid =
+  if k =? 1 then single_block cands name lits a (pid ++ loc) None
+  else concat (map (fun i => single_block cands name lits (a ++ [i]) (pid ++ loc ++ [KIdx i]) (Some (i, a, pid ++ loc))) (seq 0 k)).
+Proof. intros. simpl. unfold single_block. destruct (k =? 1); auto. f_equal. apply map_ext. intros i. rewrite <- app_assoc. reflexivity. Qed.
+Lemma single_block_prefix : forall cands name lits a' id' sub x,
+  In x (single_block cands name lits a' id' sub) -> prefix a' (i_addr x).
+Proof.
+  intros cands name lits a' id' sub x [<-|Hx]. apply prefix_refl.
+  apply in_concat_mapi in Hx as (j & c & Hc & Hx). simpl in Hx. apply (proj1 dps_prefix_both) in Hx. eapply prefix_app; eauto.
+Qed.
+Lemma agree_single_cand : forall infos cands name lits a' id' sub c sc,
+  agree infos (single_block cands name lits a' id' sub) a' -> nth_error cands c = Some sc ->
+  agree infos (dps sc (a' ++ [c]) (id' ++ [KCond c (length cands)])) (a' ++ [c]).
+Proof.
+  intros infos cands name lits a' id' sub c sc Ha Hc.
+  eapply agree_trans; [exact Ha | exists [c]; reflexivity |].
+  intros a'' Hp. unfold single_block. rewrite info_at_skip.
+  - apply (agree_mapi _ (fun j c0 => dps c0 (a' ++ [j]) (id' ++ [KCond j (length cands)])) a' cands 0 c sc); auto.
+    intros i e He x Hx. simpl in *. eapply (proj1 dps_prefix_both); eauto.
+  - simpl. intros E. subst a''. destruct Hp as [t Ht]. rewrite <- app_assoc in Ht.
+    rewrite <- (app_nil_r a') in Ht at 1. apply app_inv_head in Ht. discriminate.
+Qed.
+Lemma multi_addr_none : forall infos k cands dist srt loc name lits a pid,
+  (k =? 1) = false -> agree infos (dps_p (Choices k cands dist srt (loc, name) lits) a pid) a -> info_at infos a = None.
+Proof.
+  intros infos k cands dist srt loc name lits a pid Hk Ha. rewrite (Ha a (prefix_refl a)).
+  rewrite dps_p_choices_unfold, Hk. apply info_at_none. intros i Hi.
+  apply in_concat in Hi as [l [Hl Hi]]. apply in_map_iff in Hl as [j [<- Hj]].
+  apply single_block_prefix in Hi. eapply prefix_longer_neq; eauto. discriminate.
+Qed.
+Lemma format_candidate_irrel : forall vt n lits c d1 d2, vt <> VT_dna ->
+  format_candidate vt n lits c d1 = format_candidate vt n lits c d2.
+Proof. intros. destruct vt; try reflexivity. congruence. Qed.
+
+Lemma fold_bind_all : forall A X (f : nat -> A -> dna -> option bdna) (nrm : X -> dna)
+  (g : nat -> A -> X -> list (addr * aval)) (dumpf : bdna -> dict -> dict) (putsf : list (addr * aval) -> dict -> dict),
+  (forall l1 l2 d, putsf (l1 ++ l2) d = putsf l2 (putsf l1 d)) -> (forall d, putsf [] d = d) ->
+  forall es xs i bs d0, bind_all f i es (map nrm xs) = Some bs ->
+  (forall j e x b d, nth_error es j = Some e -> nth_error xs j = Some x -> f (i + j) e (nrm x) = Some b ->
+                     dumpf b d = putsf (g (i + j) e x) d) ->
+  fold_left (fun acc c => dumpf c acc) bs d0 = putsf (concat (mapi2 g i es xs)) d0.
+Proof.
+  intros A X f nrm g dumpf putsf Happ Hnil. induction es as [|e es IH]; intros [|x xs] i bs d0 Hb H; simpl in Hb; try discriminate.
+  - inv Hb. simpl. rewrite Hnil. reflexivity.
+  - destruct (f i e (nrm x)) as [b|] eqn:E; [|discriminate].
+    destruct (bind_all f (S i) es (map nrm xs)) as [bs'|] eqn:E2; [|discriminate]. inv Hb.
+    simpl. rewrite Happ. pose proof (H 0 e x b d0 eq_refl eq_refl) as H0. rewrite Nat.add_0_r in H0.
+    rewrite <- (H0 E). apply IH; auto.
+    intros j e' x' b' d He' Hx' Hf. replace (S i + j) with (i + S j) in * by lia. apply (H (S j) e' x' b' d); auto.
+Qed.
+
+Section Dump.
+  Variables (q : quirks) (infos : list dpinfo) (kt : key_type) (vt : value_type).
+  Hypothesis Hvt : vt <> VT_dna.
+  Notation dumpf := (dump infos kt vt MC_subchoice).
+  Notation putsf := (puts infos kt vt).
+
+  Lemma putsf_nil : forall d, putsf [] d = d. Proof. reflexivity. Qed.
+
+  Lemma dump_both :
+    (forall s, wf s = true -> forall sd a bs pid d0, valid s sd = true ->
+       bind_kids q s a (unwrap (normalize sd)) = Some bs -> agree infos (dps s a pid) a ->
+       fold_left (fun acc c => dumpf c acc) bs d0 = putsf (acts s a sd) d0) /\
+    (forall p, wf_p p = true -> forall x a b pid d0, valid_p p x = true ->
+       bind_p q p a (norm_p x) = Some b -> agree infos (dps_p p a pid) a ->
+       dumpf b d0 = putsf (acts_p p a x) d0).
+  Proof.
+    apply dspec_dpoint_ind.
+    - (* Space *)
+      intros es IH Hwf [ds] a bs pid d0 Hv Hb Hag. simpl in Hwf. pose proof Hv as Hv0. simpl in Hv. apply forallb2_Forall2 in Hv.
+      rewrite (shape_s es ds Hwf Hv) in Hb. rewrite bind_kids_unfold in Hb.
+      pose proof (Forall2_len _ _ _ _ _ Hv) as Hl.
+      (* the infos agree with the block of every element *)
+      assert (Hel : forall j e, nth_error es j = Some e -> agree infos (dps_p e (a ++ [j]) pid) (a ++ [j])).
+      { intros j e He. eapply agree_trans; [exact Hag | exists [j]; reflexivity |].
+        simpl. apply (agree_mapi _ (fun i e0 => dps_p e0 (a ++ [i]) pid) a es 0 j e); auto.
+        intros i e0 He0 x Hx. simpl in *. eapply (proj2 dps_prefix_both); eauto. }
+      destruct es as [|e [|e2 es]]; destruct ds as [|x [|y r]]; simpl in Hl; try lia.
+      + simpl in Hb. inv Hb. reflexivity.
+      + inversion Hv as [|? ? ? ? He _]; subst. simpl in Hwf. rewrite andb_true_r in Hwf.
+        apply Forall_cons_iff in IH as [IHe _].
+        change (acts (Space [e]) a (SSpace [x])) with (acts_p e (a ++ [0]) x ++ []). rewrite app_nil_r.
+        destruct (unwrap_multi e x Hwf He) as [[Em En]|[Em En]]; rewrite Em in Hb.
+        * rewrite En in Hb. destruct (bind_p q e (a ++ [0]) (norm_p x)) as [b|] eqn:Eb; [|discriminate]. inv Hb.
+          rewrite <- (IHe Hwf x (a ++ [0]) b pid d0 He Eb (Hel 0 e eq_refl)).
+          (* the node of the multi-choice itself contributes nothing *)
+          destruct e as [k cands dist srt [loc name] lits| |]; try discriminate. unfold is_multi in Em. apply negb_true_iff in Em.
+          rewrite bind_p_choices_unfold, Em in Eb.
+          destruct (negb (is_none (Geno.dvalue (norm_p x)))); [discriminate|].
+          destruct (bind_all _ 0 (seq 0 k) (dkids (norm_p x))) as [ks|]; [|discriminate].
+          cbv zeta in Eb. destruct (_ && _); [|discriminate]. inv Eb.
+          rewrite dump_unfold. rewrite (multi_addr_none infos k cands dist srt loc name lits (a ++ [0]) pid Em (Hel 0 _ eq_refl)).
+          reflexivity.
+        * rewrite En in Hb. destruct (bind_p q e (a ++ [0]) (norm_p x)) as [b|] eqn:Eb; [|discriminate]. inv Hb.
+          simpl. apply (IHe Hwf x (a ++ [0]) b pid d0 He Eb (Hel 0 e eq_refl)).
+      + cbn [unwrap] in Hb.
+        apply (fold_bind_all _ _ (fun i e0 d => bind_p q e0 (a ++ [i]) d) norm_p (fun i e0 x0 => acts_p e0 (a ++ [i]) x0) dumpf putsf
+                 (puts_app infos kt vt) putsf_nil (e :: e2 :: es) (x :: y :: r) 0 bs d0 Hb).
+        intros j e' x' b d He' Hx' Hf. simpl in Hf.
+        rewrite Forall_forall in IH. rewrite forallb_forall in Hwf.
+        apply (IH e' (nth_error_In _ _ He') (Hwf e' (nth_error_In _ _ He')) x' (a ++ [j]) b pid d); auto.
+        * clear - Hv He' Hx'. revert j He' Hx'. induction Hv; intros [|j] He' Hx'; simpl in *; try discriminate.
+          inv He'; inv Hx'; auto. eapply IHHv; eauto.
+    - (* Choices *)
+      intros k cands dist srt [loc name] lits IH Hwf x a b pid d0 Hv Hb Hag.
+      pose proof (shape_p _ x Hwf Hv) as Hs. cbv beta iota in Hs.
+      pose proof Hwf as Hwf0. apply wf_p_choices in Hwf as (Hk & Hn & Hdk & Hwc).
+      rewrite dps_p_choices_unfold in Hag.
+      (* one choice node *)
+      assert (Hsingle : forall a' id' sub c sb b' d,
+                c < length cands -> with_nth (fun s => valid s sb) false cands c = true ->
+                single_bind q cands a' (D (vint c) (unwrap (normalize sb))) = Some b' ->
+                agree infos (single_block cands name lits a' id' sub) a' ->
+                dumpf b' d = putsf ((a', AChoice c) :: with_nth (fun sc => acts sc (a' ++ [c]) sb) [] cands c) d).
+      { intros a' id' sub c sb b' d Hc Hvs Hsb Ha'. unfold single_bind in Hsb. cbn [Geno.dvalue dkids] in Hsb.
+        rewrite index_of_vint in Hsb by auto. rewrite with_nth_nth_error in *.
+        destruct (nth_error cands c) as [sc|] eqn:E; [|discriminate].
+        destruct (bind_kids q sc (a' ++ [c]) (unwrap (normalize sb))) as [ks|] eqn:Ek; [|discriminate]. inv Hsb.
+        rewrite dump_unfold. rewrite (Ha' a' (prefix_refl a')). unfold single_block at 1. rewrite info_at_head.
+        cbv zeta. cbn [i_kind i_sub i_id i_name].
+        assert (Ed : forall dd, (match sub with
+                      | Some (_, pa, pid0) =>
+                          let d' := if use_parent MC_subchoice then dput dd (key_of kt pid0 name pa) (format_candidate vt (length cands) lits (Z.to_nat (Z.of_nat c)) (strip (B (vint c) (Some a') ks))) else dd in
+                          if needs_subchoice_key kt MC_subchoice name then dput d' (key_of kt id' name a') (format_candidate vt (length cands) lits (Z.to_nat (Z.of_nat c)) (strip (B (vint c) (Some a') ks))) else d'
+                      | None => dput dd (key_of kt id' name a') (format_candidate vt (length cands) lits (Z.to_nat (Z.of_nat c)) (strip (B (vint c) (Some a') ks)))
+                      end) = dput dd (key_of kt id' name a') (format_candidate vt (length cands) lits c (D VNone []))).
+        { intros dd. rewrite Nat2Z.id. rewrite (format_candidate_irrel vt _ _ _ _ (D VNone []) Hvt).
+          destruct sub as [[[? ?] ?]|]; [|reflexivity]. simpl. destruct kt; reflexivity. }
+        unfold vint at 1. rewrite Ed.
+        rewrite forallb_forall in Hwc. eapply nth_error_Forall in IH; eauto.
+        rewrite (IH (Hwc sc (nth_error_In _ _ E)) sb (a' ++ [c]) ks (id' ++ [KCond c (length cands)]) _ Hvs Ek
+                    (agree_single_cand infos cands name lits a' id' sub c sc Ha' E)).
+        unfold puts at 2. simpl fold_left. unfold put1 at 2. cbn [fst snd].
+        rewrite (Ha' a' (prefix_refl a')). unfold single_block. rewrite info_at_head. cbn [i_kind i_id i_name]. reflexivity. }
+      rewrite bind_p_choices_unfold in Hb.
+      destruct (k =? 1) eqn:Ek.
+      + destruct Hs as (c & sb & -> & Hn1). rewrite Hn1, node_eq in Hb.
+        apply valid_p_choices in Hv as [_ [[_ Hbd] Hf]].
+        apply Forall_cons_iff in Hbd as [Hbd _]. apply Forall_cons_iff in Hf as [Hf _]. simpl in Hbd, Hf.
+        change (acts_p (Choices k cands dist srt (loc, name) lits) a (PChoices [(c, sb)])) with
+          (if k =? 1 then (a, AChoice c) :: with_nth (fun sc => acts sc (a ++ [c]) sb) [] cands c else
+             concat (mapi (fun i (cs0 : nat * sdna) => (a ++ [i], AChoice (fst cs0)) :: with_nth (fun sc => acts sc ((a ++ [i]) ++ [fst cs0]) (snd cs0)) [] cands (fst cs0)) 0 [(c, sb)])).
+        rewrite Ek. eapply Hsingle; eauto.
+      + destruct Hs as (cs & -> & Hlen & Hn2). rewrite Hn2 in Hb.
+        apply valid_p_choices in Hv as [_ [[_ Hbd] Hf]].
+        cbn [Geno.dvalue dkids is_none negb] in Hb.
+        set (node := fun cs0 : nat * sdna => mk (VInt (Z.of_nat (fst cs0))) [normalize (snd cs0)]) in *.
+        destruct (bind_all (fun i (_ : nat) d' => single_bind q cands (a ++ [i]) d') 0 (seq 0 k) (map node cs)) as [ks|] eqn:Ea; [|discriminate].
+        cbv zeta in Hb. destruct (_ && _); [|discriminate]. injection Hb as <-.
+        rewrite dump_unfold.
+        rewrite (multi_addr_none infos k cands dist srt loc name lits a pid Ek
+                   ltac:(rewrite dps_p_choices_unfold, Ek; exact Hag)).
+        change (acts_p (Choices k cands dist srt (loc, name) lits) a (PChoices cs)) with
+          (if k =? 1 then match cs with [cs0] => (a, AChoice (fst cs0)) :: with_nth (fun sc => acts sc (a ++ [fst cs0]) (snd cs0)) [] cands (fst cs0) | _ => [] end else
+             concat (mapi (fun i (cs0 : nat * sdna) => (a ++ [i], AChoice (fst cs0)) :: with_nth (fun sc => acts sc ((a ++ [i]) ++ [fst cs0]) (snd cs0)) [] cands (fst cs0)) 0 cs)).
+        rewrite Ek.
+        (* mapi over cs = mapi2 over (seq 0 k, cs) *)
+        assert (Em : forall (l : list (nat * sdna)) s0,
+                  mapi (fun i (cs0 : nat * sdna) => (a ++ [i], AChoice (fst cs0)) :: with_nth (fun sc => acts sc ((a ++ [i]) ++ [fst cs0]) (snd cs0)) [] cands (fst cs0)) s0 l =
+                  mapi2 (fun i (_ : nat) (cs0 : nat * sdna) => (a ++ [i], AChoice (fst cs0)) :: with_nth (fun sc => acts sc ((a ++ [i]) ++ [fst cs0]) (snd cs0)) [] cands (fst cs0)) s0 (seq s0 (length l)) l).
+        { induction l; intros s0; simpl; auto. f_equal. apply IHl. }
+        rewrite Em, Hlen.
+        apply (fold_bind_all _ _ (fun i (_ : nat) d' => single_bind q cands (a ++ [i]) d') node _ dumpf putsf
+                 (puts_app infos kt vt) putsf_nil (seq 0 k) cs 0 ks d0 Ea).
+        intros j e' [c sb] b' d He' Hx' Hsb. simpl in Hsb. unfold node in Hsb. cbn [fst snd] in *. rewrite node_eq in Hsb.
+        rewrite Forall_forall in Hbd, Hf.
+        assert (Hin : In (c, sb) cs) by (eapply nth_error_In; eauto).
+        eapply (Hsingle (a ++ [j]) (pid ++ loc ++ [KIdx j]) (Some (j, a, pid ++ loc))); eauto.
+        * apply (Hbd c). apply in_map_iff. exists (c, sb). auto.
+        * apply (Hf (c, sb)); auto.
+        * assert (Hj : j < k). { rewrite <- Hlen. apply nth_error_Some. rewrite Hx'. discriminate. }
+          eapply agree_trans; [exact Hag | exists [j]; reflexivity |].
+          apply (agree_map_seq (fun i => single_block cands name lits (a ++ [i]) (pid ++ loc ++ [KIdx i]) (Some (i, a, pid ++ loc))) a k 0 j).
+          -- intros i Hi y Hy. eapply single_block_prefix; eauto.
+          -- lia.
+    - (* Float *)
+      intros lo hi [loc name] Hwf x a b pid d0 Hv Hb Hag. destruct x; try discriminate. simpl in Hb.
+      destruct (_ && _); [|discriminate]. inv Hb. rewrite dump_unfold. simpl fold_left.
+      rewrite (Hag a (prefix_refl a)). simpl dps_p. rewrite info_at_head. cbv zeta. cbn [i_kind i_id i_name].
+      unfold puts. simpl. unfold put1. cbn [fst snd]. rewrite (Hag a (prefix_refl a)). simpl dps_p. rewrite info_at_head.
+      cbn [i_kind i_id i_name]. destruct vt; try reflexivity. congruence.
+    - intros [loc name] Hwf x a b pid d0 Hv Hb Hag. destruct x; try discriminate. simpl in Hb. inv Hb.
+      rewrite dump_unfold. simpl fold_left.
+      rewrite (Hag a (prefix_refl a)). simpl dps_p. rewrite info_at_head. cbv zeta. cbn [i_kind i_id i_name].
+      unfold puts. simpl. unfold put1. cbn [fst snd]. rewrite (Hag a (prefix_refl a)). simpl dps_p. rewrite info_at_head.
+      cbn [i_kind i_id i_name]. destruct vt; try reflexivity. congruence.
+  Qed.
+End Dump.
